@@ -188,9 +188,25 @@ def observe(objs: List[Any], specs: List[tuple]) -> List[dict]:
                 elif got is not None:
                     hits.append(j + 1)
             o['cachehit'] = hits
+            # what adding says: "not in the cache yet" exactly for a different record, and the cache then holds one entry per identity
+            # (NSEC records are always reported as already known: documented in _async_add)
+            known = []
+            for j in range(n):
+                if specs[j][0] in ('Q', 'NSEC'):
+                    continue
+                c2 = DNSCache()
+                c2.async_add_records([a])
+                was_new = c2.async_add_records([objs[j]])
+                held = sum(len(v) for v in c2.cache.values())
+                if bool(was_new) != (held == 2):
+                    known.append(-(j + 1))
+                elif not was_new:
+                    known.append(j + 1)
+            o['cacheknown'] = known
         else:
             o['suppresses'] = []
             o['cachehit'] = []
+            o['cacheknown'] = []
         obs.append(o)
     return obs
 
@@ -238,7 +254,7 @@ def run(ctx: Ctx) -> None:
         'exhaustive': True,
         'identity_classes': classes,
         'clauses': ['C20_EqIffSameKey', 'C20_EqualHashEqual', 'C20_DictMembership', 'C20_RRSetLookup',
-                    'C20_CacheLookup'],
+                    'C20_CacheLookup', 'C20_CacheAddReportsNew'],
         'samples': [repr(specs[0]), repr(specs[len(specs) // 2]), repr(specs[-1])],
         'explanation': 'TLC (Oracle_C20.tla) evaluated Records!Same on all pairs and compared with ==, hash, dict, '
                        'DNSRRSet.suppresses and DNSCache.get/async_get_unique of the real objects',
